@@ -11,14 +11,21 @@ library offers: the constructor (`Engine(processes, steps, flow, topology)`, `En
 `Engine(store=composite.generate_store())`), a run-time `_generate` with a key, and a `_divide` in
 which the daughters inherit the mother's processes, topology and flow.
 
-Oracle (C05): in every step phase, every compartment that exists runs each of its three steps
-exactly once, in dependency order, and after the phase `a = x + 1`, `b = 10 a`, `c = b + 5` hold in
-every emitted row."""
+Every compartment also holds a legacy deriver `tally` (no flow entry: `t = 2 x`), and the structural
+updates are issued either by a process (between phases) or by a legacy deriver listed first (during
+a phase: what it creates first runs in the next phase, and the other compartments' derivers still
+run in this one).
+
+Oracle (C05/C10): in every step phase, every compartment that exists when the phase begins (and
+still exists) runs each of its steps exactly once, in dependency order, and after the phase
+`a = x + 1`, `b = 10 a`, `c = b + 5`, `t = 2 x` hold in every emitted row; a compartment created
+during a phase is left alone until the next one."""
 import itertools
 
 _ids = itertools.count()
 CTX = {}
 ROLES = ['finish', 'middle', 'start']          # declaration order (reverse of the dependency order)
+ALL_ROLES = ['tally'] + ROLES                  # `tally` is a legacy deriver (no flow entry)
 FLOW = {'start': [], 'middle': [('start',)], 'finish': [('middle',)]}
 
 
@@ -26,7 +33,8 @@ def gen_case(rng):
     return {'kind': 'dynflow', 'entry': rng.choice(['parts', 'composite', 'store']),
             'initial': rng.choice([['a'], ['a'], ['a', 'z']]),
             'generate_at': rng.choice([None, 1, 2, 2]), 'divide_at': rng.choice([None, None, 2, 3]),
-            'ticks': rng.choice([4, 5]), 'x0': rng.choice([0, 2, 7]), 'slow': rng.choice([None, None, 2, 3])}
+            'ticks': rng.choice([4, 5]), 'x0': rng.choice([0, 2, 7]), 'slow': rng.choice([None, None, 2, 3]),
+            'director': rng.choice(['process', 'process', 'deriver'])}
 
 
 def corpus():
@@ -40,6 +48,11 @@ def corpus():
         # F36: the dividing mother holds a process (timestep 3) whose update is in flight; the daughters inherit it
         {'kind': 'dynflow', 'entry': 'parts', 'initial': ['a'], 'generate_at': None, 'divide_at': 2, 'ticks': 5,
          'x0': 1, 'slow': 3},
+        # the structure changes during a step phase (a legacy deriver generates / divides)
+        {'kind': 'dynflow', 'entry': 'parts', 'initial': ['a', 'z'], 'generate_at': 2, 'divide_at': None, 'ticks': 4,
+         'x0': 2, 'director': 'deriver'},
+        {'kind': 'dynflow', 'entry': 'parts', 'initial': ['a', 'z'], 'generate_at': None, 'divide_at': 2, 'ticks': 4,
+         'x0': 2, 'director': 'deriver'},
     ]
 
 
@@ -72,7 +85,7 @@ def _classes():
         defaults = {'key': None, 'role': 'start'}
 
         def ports_schema(self):
-            sch = {v: {'_default': 0, '_emit': True, '_updater': 'set', '_divider': 'set'} for v in 'abc'}
+            sch = {v: {'_default': 0, '_emit': True, '_updater': 'set', '_divider': 'set'} for v in 'abct'}
             sch['x'] = {'_default': 0, '_emit': True, '_divider': 'set'}
             sch['name'] = {'_default': '', '_updater': 'set', '_divider': 'set'}
             return {'vars': sch}
@@ -82,7 +95,9 @@ def _classes():
             v = states['vars']
             ctx = CTX.get(self.parameters['key'])
             if ctx is not None:
-                ctx['log'].append({'e': 'step', 'role': role, 't': ctx['now'](), 'phase': ctx['phase']()})
+                ctx['log'].append({'e': 'step', 'role': role, 't': ctx['now'](), 'phase': ctx['phase'](), 'x': v['x']})
+            if role == 'tally':
+                return {'vars': {'t': v['x'] * 2}}
             if role == 'start':
                 return {'vars': {'a': v['x'] + 1}}
             if role == 'middle':
@@ -107,18 +122,40 @@ def _classes():
                 upd['_divide'] = {'mother': 'a', 'daughters': [{'key': 'a0'}, {'key': 'a1'}]}
             return {'agents': upd} if upd else {}
 
-    return Grow, Chain, Director, Slow
+    class DirectorStep(Step):
+        """the same structural updates, issued by a legacy deriver during the step phase number `…_at`"""
+        defaults = {'key': None, 'case': None}
+
+        def __init__(self, parameters=None):
+            super().__init__(parameters)
+            self.n = 0
+
+        def ports_schema(self):
+            return {'agents': {'*': {'vars': {'x': {'_default': 0}}}}}
+
+        def next_update(self, timestep, states):
+            case = self.parameters['case']
+            phase = self.n
+            self.n += 1
+            upd = {}
+            if case['generate_at'] is not None and phase == case['generate_at']:
+                upd['_generate'] = [dict(compartment(self.parameters['key'], case['x0'] + 100), key='g')]
+            if case['divide_at'] is not None and phase == case['divide_at'] and 'a' in states['agents']:
+                upd['_divide'] = {'mother': 'a', 'daughters': [{'key': 'a0'}, {'key': 'a1'}]}
+            return {'agents': upd} if upd else {}
+
+    return Grow, Chain, Director, Slow, DirectorStep
 
 
 def compartment(key, x0, slow=None):
-    Grow, Chain, _, Slow = _classes()
+    Grow, Chain, _, Slow, _ = _classes()
     procs = {'grow': Grow({'key': key})}
     if slow:
         procs['slow'] = Slow({'key': key, 'ts': slow})
     return {'processes': procs,
-            'steps': {r: Chain({'key': key, 'role': r}) for r in ROLES},
+            'steps': {r: Chain({'key': key, 'role': r}) for r in ALL_ROLES},
             'flow': {r: list(FLOW[r]) for r in ROLES},
-            'topology': dict({p: {'vars': ('vars',)} for p in procs}, **{r: {'vars': ('vars',)} for r in ROLES}),
+            'topology': dict({p: {'vars': ('vars',)} for p in procs}, **{r: {'vars': ('vars',)} for r in ALL_ROLES}),
             'initial_state': {'vars': {'x': x0}}}
 
 
@@ -127,7 +164,7 @@ def run_impl(case):
     from vivarium.core.composer import Composite
     from vivarium.core.emitter import Emitter
     from vivarium.core.registry import emitter_registry
-    _, _, Director, _ = _classes()
+    _, _, Director, _, DirectorStep = _classes()
     key = f'df-{next(_ids)}'
     ctx = {'log': [], 'engine': None, 'nphase': 0}
     ctx['now'] = lambda: 0 if ctx['engine'] is None else int(round(ctx['engine'].global_time))
@@ -146,9 +183,16 @@ def run_impl(case):
         emitter_registry.register('verif_df', DFEmitter)
     obs = {'log': ctx['log']}
     try:
-        parts = {'processes': {'agents': {}, 'director': Director({'key': key, 'case': case})},
-                 'steps': {'agents': {}}, 'flow': {'agents': {}},
-                 'topology': {'agents': {}, 'director': {'agents': ('agents',)}}}
+        if case.get('director') == 'deriver':
+            # a legacy deriver (no flow entry), listed ahead of every other step
+            parts = {'processes': {'agents': {}},
+                     'steps': {'director': DirectorStep({'key': key, 'case': case}), 'agents': {}},
+                     'flow': {'agents': {}},
+                     'topology': {'agents': {}, 'director': {'agents': ('agents',)}}}
+        else:
+            parts = {'processes': {'agents': {}, 'director': Director({'key': key, 'case': case})},
+                     'steps': {'agents': {}}, 'flow': {'agents': {}},
+                     'topology': {'agents': {}, 'director': {'agents': ('agents',)}}}
         init = {'agents': {}}
         for i, k in enumerate(case['initial']):
             comp = compartment(key, case['x0'] + 10 * i, case.get('slow'))
@@ -189,17 +233,31 @@ def oracle(case, impl, who=('order', 'values', 'once', 'published')):
     fails = []
     log = impl['log']
     rows = [ev for ev in log if ev['e'] == 'emit']
+    by_deriver = case.get('director') == 'deriver'
+    prev = None
+    fresh_by_row = {}
+    for row in rows:
+        # compartments created during this row's phase by a step: their steps first run in the next phase
+        fresh = set(row['agents']) - set(prev['agents']) if (by_deriver and prev is not None) else set()
+        fresh_by_row[row['phase']] = fresh
+        prev = row
     if 'values' in who:
         for row in rows:
             for k, v in sorted(row['agents'].items()):
-                if not all(n in v for n in 'xabc'):
+                if not all(n in v for n in 'xabct'):
                     fails.append(f'steps-lost: at t={row["t"]} compartment {k} holds only {sorted(v)}: the steps it '
-                                 f'was created with (and their variables a, b, c) are not there')
+                                 f'was created with (and their variables a, b, c, t) are not there')
                     break
+                if k in fresh_by_row[row['phase']]:
+                    continue
                 if v['a'] != v['x'] + 1 or v['b'] != 10 * v['a'] or v['c'] != v['b'] + 5:
                     fails.append(f'sees-deps: at t={row["t"]} compartment {k} holds x={v["x"]} a={v["a"]} b={v["b"]} '
                                  f'c={v["c"]}: a step ran before the update of its dependency was applied '
                                  f'(a = x + 1, b = 10 a, c = b + 5 must hold after every phase)')
+                    break
+                if v['t'] != 2 * v['x']:
+                    fails.append(f'deriver-skipped: at t={row["t"]} compartment {k} holds x={v["x"]} t={v["t"]}: its '
+                                 f'legacy deriver (t = 2 x) did not run in this phase')
                     break
             if fails:
                 break
@@ -217,13 +275,23 @@ def oracle(case, impl, who=('order', 'values', 'once', 'published')):
         for ev in log:
             if ev['e'] == 'step':
                 by_phase.setdefault(ev['phase'], []).append(ev['role'])
+                if ev['phase'] in fresh_by_row and 'g' in fresh_by_row[ev['phase']] \
+                        and ev['x'] >= case['x0'] + 100 and not fails:
+                    fails.append(f'too-early: step {ev["role"]!r} of the compartment generated during the phase at '
+                                 f't={ev["t"]} ran in that same phase')
+        prev_row = None
         for row in rows:
             roles = by_phase.get(row['phase'], [])
-            n = len([k for k, v in row['agents'].items() if all(x in v for x in 'xabc')])
-            for r in ROLES:
-                if 'once' in who and roles.count(r) != n and not fails:
+            n = len([k for k, v in row['agents'].items()
+                     if all(x in v for x in 'xabc') and k not in fresh_by_row[row['phase']]])
+            gone = set(prev_row['agents']) - set(row['agents']) if prev_row is not None else set()
+            for r in ALL_ROLES:
+                # a deriver of a compartment that a later deriver removes in this very phase has had its turn
+                slack = len(gone) if (r == 'tally' and by_deriver) else 0
+                if 'once' in who and not (n <= roles.count(r) <= n + slack) and not fails:
                     fails.append(f'once: in the phase at t={row["t"]} the step {r!r} ran {roles.count(r)} times for '
                                  f'{n} compartments')
+            prev_row = row
             if fails:
                 break
     return fails[:3]
